@@ -9,18 +9,22 @@ package main
 
 import (
 	"context"
+	"errors"
 	"fmt"
 	"sort"
 	"time"
 
 	"github.com/awslabs/operatorpkg/object"
 	corev1 "k8s.io/api/core/v1"
+	apierrors "k8s.io/apimachinery/pkg/api/errors"
 	metav1 "k8s.io/apimachinery/pkg/apis/meta/v1"
+	"k8s.io/apimachinery/pkg/runtime/schema"
 	clock "k8s.io/utils/clock/testing"
 	"sigs.k8s.io/controller-runtime/pkg/client"
 	"sigs.k8s.io/controller-runtime/pkg/client/interceptor"
 
 	v1 "sigs.k8s.io/karpenter/pkg/apis/v1"
+	"sigs.k8s.io/karpenter/pkg/cloudprovider"
 	"sigs.k8s.io/karpenter/pkg/cloudprovider/fake"
 	"sigs.k8s.io/karpenter/pkg/controllers/node/termination"
 	"sigs.k8s.io/karpenter/pkg/controllers/node/termination/terminator"
@@ -28,6 +32,14 @@ import (
 
 	"verifharness/kit"
 )
+
+type nodeOpts struct {
+	deleting, finalizer, managed, ready bool
+	instance                           string // "there" | "gone" | "error" (asked only for a not-ready node)
+	taints                             []corev1.Taint
+	claims                             int  // NodeClaims with the node's provider id: 0, 1, 2 (duplicates = treated as none)
+	reason                             bool // the NodeClaim carries a DisruptionReason condition (eviction reason metric)
+}
 
 type nodeSut struct {
 	h        *hist // bookkeeping only (pod table, ops, summary)
@@ -39,28 +51,59 @@ type nodeSut struct {
 	api      string
 	direct   bool // the harness itself removes a pod (kubelet finished)
 	hasClaim bool
+	opts     nodeOpts
+	fault    string // per pass: "", claim-list-fails, claim-delete-fails, taint-conflict, taint-error, pod-list-fails, status-patch-fails
 	ctx      context.Context
 }
 
 const claimName = "claim-a"
 
-func newNodeSut(c *kit.Ctx, r *kit.Rand, pods []*podSpec, hasClaim bool, ann *string) *nodeSut {
-	n := &nodeSut{h: newHist(c, r), clk: clock.NewFakeClock(base), hasClaim: hasClaim, ctx: kit.Context(), api: "AOk"}
+type nodeProvider struct {
+	*fake.CloudProvider
+	n *nodeSut
+}
+
+func (p *nodeProvider) Get(_ context.Context, id string) (*v1.NodeClaim, error) {
+	switch p.n.opts.instance {
+	case "gone":
+		return nil, cloudprovider.NewNodeClaimNotFoundError(fmt.Errorf("instance %s not found", id))
+	case "error":
+		return nil, errors.New("provider unavailable")
+	}
+	return &v1.NodeClaim{Status: v1.NodeClaimStatus{ProviderID: id}}, nil
+}
+
+func newNodeSut(c *kit.Ctx, r *kit.Rand, pods []*podSpec, o nodeOpts, ann *string) *nodeSut {
+	n := &nodeSut{h: newHist(c, r), clk: clock.NewFakeClock(base), hasClaim: o.claims == 1, opts: o, ctx: kit.Context(), api: "AOk"}
 	nodeClass := test.NodeClass()
 	nodeClass.Name = "default"
-	del := metav1.NewTime(base.Add(-time.Second))
 	node := &corev1.Node{
-		ObjectMeta: metav1.ObjectMeta{Name: nodeName, Finalizers: []string{v1.TerminationFinalizer}, DeletionTimestamp: &del,
-			Labels: map[string]string{v1.NodeClassLabelKey(object.GVK(nodeClass).GroupKind()): nodeClass.Name, v1.NodePoolLabelKey: "pool"}},
-		Spec:   corev1.NodeSpec{ProviderID: "fake://node-a"},
-		Status: corev1.NodeStatus{Conditions: []corev1.NodeCondition{{Type: corev1.NodeReady, Status: corev1.ConditionTrue}}},
+		ObjectMeta: metav1.ObjectMeta{Name: nodeName, Labels: map[string]string{v1.NodePoolLabelKey: "pool"}},
+		Spec:       corev1.NodeSpec{ProviderID: "fake://node-a", Taints: o.taints},
+		Status: corev1.NodeStatus{Conditions: []corev1.NodeCondition{{Type: corev1.NodeReady,
+			Status: map[bool]corev1.ConditionStatus{true: corev1.ConditionTrue, false: corev1.ConditionFalse}[o.ready]}}},
+	}
+	if o.managed {
+		node.Labels[v1.NodeClassLabelKey(object.GVK(nodeClass).GroupKind())] = nodeClass.Name
+	}
+	if o.finalizer {
+		node.Finalizers = []string{v1.TerminationFinalizer}
+	} else {
+		node.Finalizers = []string{"example.com/other"}
+	}
+	if o.deleting {
+		del := metav1.NewTime(base.Add(-time.Second))
+		node.DeletionTimestamp = &del
 	}
 	objs := []client.Object{nodeClass, node}
-	if hasClaim {
-		nc := test.NodeClaim(v1.NodeClaim{ObjectMeta: metav1.ObjectMeta{Name: claimName, Finalizers: []string{v1.TerminationFinalizer}},
+	for i := 0; i < o.claims; i++ {
+		nc := test.NodeClaim(v1.NodeClaim{ObjectMeta: metav1.ObjectMeta{Name: []string{claimName, "claim-b"}[i], Finalizers: []string{v1.TerminationFinalizer}},
 			Status: v1.NodeClaimStatus{ProviderID: "fake://node-a", NodeName: nodeName}})
 		if ann != nil {
 			nc.Annotations = map[string]string{v1.NodeClaimTerminationTimestampAnnotationKey: *ann}
+		}
+		if o.reason {
+			nc.StatusConditions().SetTrueWithReason(v1.ConditionTypeDisruptionReason, "Drifted", "Drifted")
 		}
 		objs = append(objs, nc)
 	}
@@ -77,6 +120,9 @@ func newNodeSut(c *kit.Ctx, r *kit.Rand, pods []*podSpec, hasClaim bool, ann *st
 			return (&sut{plan: plan{api: n.api}}).apiErr(pod.Name)
 		},
 		Delete: func(ctx context.Context, cl client.WithWatch, obj client.Object, opts ...client.DeleteOption) error {
+			if _, isClaim := obj.(*v1.NodeClaim); isClaim && n.fault == "claim-delete-fails" {
+				return apierrors.NewInternalError(errors.New("injected"))
+			}
 			pod, ok := obj.(*corev1.Pod)
 			if !ok || n.direct {
 				return cl.Delete(ctx, obj, opts...)
@@ -90,10 +136,40 @@ func newNodeSut(c *kit.Ctx, r *kit.Rand, pods []*podSpec, hasClaim bool, ann *st
 			n.calls = append(n.calls, call{kind: "delete", key: podKey(pod), grace: g})
 			return (&sut{plan: plan{api: n.api}}).apiErr(pod.Name)
 		},
+		List: func(ctx context.Context, cl client.WithWatch, list client.ObjectList, opts ...client.ListOption) error {
+			switch list.(type) {
+			case *v1.NodeClaimList:
+				if n.fault == "claim-list-fails" {
+					return apierrors.NewInternalError(errors.New("injected"))
+				}
+			case *corev1.PodList:
+				if n.fault == "pod-list-fails" {
+					return apierrors.NewInternalError(errors.New("injected"))
+				}
+			}
+			return cl.List(ctx, list, opts...)
+		},
+		Patch: func(ctx context.Context, cl client.WithWatch, obj client.Object, patch client.Patch, opts ...client.PatchOption) error {
+			if _, isNode := obj.(*corev1.Node); isNode {
+				switch n.fault {
+				case "taint-conflict":
+					return apierrors.NewConflict(schema.GroupResource{Resource: "nodes"}, nodeName, errors.New("injected"))
+				case "taint-error":
+					return apierrors.NewInternalError(errors.New("injected"))
+				}
+			}
+			return cl.Patch(ctx, obj, patch, opts...)
+		},
+		SubResourcePatch: func(ctx context.Context, cl client.Client, sub string, obj client.Object, patch client.Patch, opts ...client.SubResourcePatchOption) error {
+			if _, isClaim := obj.(*v1.NodeClaim); isClaim && sub == "status" && n.fault == "status-patch-fails" {
+				return apierrors.NewInternalError(errors.New("injected"))
+			}
+			return cl.SubResource(sub).Patch(ctx, obj, patch, opts...)
+		},
 	}, objs...)
 	rec := test.NewEventRecorder()
 	n.q = terminator.NewQueue(n.clk, n.c, rec)
-	n.ctrl = termination.NewController(n.clk, n.c, fake.NewCloudProvider(), terminator.NewTerminator(n.clk, n.c, n.q, rec), rec)
+	n.ctrl = termination.NewController(n.clk, n.c, &nodeProvider{CloudProvider: fake.NewCloudProvider(), n: n}, terminator.NewTerminator(n.clk, n.c, n.q, rec), rec)
 	return n
 }
 
